@@ -19,6 +19,8 @@ REGISTRY = {
     "C06": ("harness.p_expr", 25, 900),
     "C10": ("harness.p_expr", 25, 900),
     "C19": ("harness.p_c19", 120, 1200),
+    "C21": ("harness.p_vsa", 60, 1800),
+    "C22": ("harness.p_vsa", 60, 1800),
 }
 
 
